@@ -1645,6 +1645,7 @@ func (ex *Executor) SetupRedirects(pkg *ssa.Package) {
 		"(*sync.Map).Range": "verifModelSyncMapRange",
 		"(*sync.Once).Do":   "verifModelOnceDo",
 		"errors.Is":         "verifModelErrorsIs",
+		"(*bytes.Reader).WriteTo": "verifModelReaderWriteTo",
 	}
 	for k, v := range m {
 		if f := pkg.Func(v); f != nil {
